@@ -257,3 +257,62 @@ package transform
 //@   modifies rh
 //@   ensures C10_result_has_the_original_field_type: valid(v) && vtype(v) == sf.Type
 //@   ensures C10_exactly_one_value_per_leaf: err == nil ==> len(vs) == leafCount(sf.Type, tuType())
+
+// ---------------------------------------------------------------------------------------------
+// set <-> slice mangler (C10): a set leaf is offered as a slice; an unset slice reverses to an unset set, a
+// slice that was set - even to no elements - reverses to a set that is set.
+// ---------------------------------------------------------------------------------------------
+//@ macro isSetType(t RType) bool = kind(t) == Map && elem(t) == global("emptyStructType")
+//@ func transform.(*SetSliceMangler).Mangle(m, sf) (out, err)
+//@   props C10
+//@   safety C16
+//@   requires sf.Type != nil
+//@   ensures C10_one_field_same_name: err == nil && len(out) == 1 && out[0].Name == sf.Name
+//@        && out[0].Type == ite(isSetType(sf.Type), sliceOf(keyT(sf.Type)), sf.Type)
+
+//@ func transform.(*SetSliceMangler).Unmangle(m, sf, vs) (v, err)
+//@   props C10
+//@   safety C16
+//@   requires sf.Type != nil && len(vs) == 1 && valid(vs[0].Value) && vtype(vs[0].Value) != nil
+//@   requires wf_package_initialised: valid(global("emptyStructValue")) && vtype(global("emptyStructValue")) == global("emptyStructType") && global("emptyStructType") != nil
+//@   modifies rh
+//@   loop 0:
+//@     invariant 0 <= i
+//@   ensures C10_other_fields_pass_through: !isSetType(sf.Type) ==> err == nil && v == vs[0].Value
+//@   ensures C10_unset_slice_is_an_unset_set: isSetType(sf.Type) && err == nil && old(visnil(vs[0].Value)) ==> valid(v) && vtype(v) == sf.Type
+//@   ensures C10_a_slice_that_was_set_is_a_set_that_is_set: isSetType(sf.Type) && err == nil && !old(visnil(vs[0].Value)) ==> valid(v) && vtype(v) == sf.Type && !visnil(v)
+
+// ---------------------------------------------------------------------------------------------
+// anonymous-flatten mangler (C10): the exported fields of an embedded struct are hoisted; on the way back the
+// values are matched to the fields by name, in order, and a pointer-embedded struct stays unset when every
+// hoisted value is unset.
+// ---------------------------------------------------------------------------------------------
+//@ macro unsetValue(v Val) bool = (kind(vtype(v)) == Ptr || kind(vtype(v)) == Slice || kind(vtype(v)) == Map || kind(vtype(v)) == Interface || kind(vtype(v)) == Chan) && visnil(v)
+//@ func transform.(AnonymousFlattenMangler).unmangleStruct(a, sf, fvs) (out, allNil)
+//@   props C10
+//@   safety C16
+//@   requires sf.Type != nil && kind(sf.Type) == Struct
+//@   requires C10_values_fit_the_fields_of_the_same_name: forall i int, j int :: {fName(sf.Type, i), fvs[j].Field.Name} 0 <= i && i < numField(sf.Type) && 0 <= j && j < len(fvs)
+//@        && fName(sf.Type, i) == fvs[j].Field.Name ==> valid(fvs[j].Value) && vtype(fvs[j].Value) != nil && assignable(vtype(fvs[j].Value), fType(sf.Type, i)) && isExported(fName(sf.Type, i))
+//@   requires wf_values_exist_before_the_call: forall j int :: {fvs[j].Value} 0 <= j && j < len(fvs) ==> allocT(vroot(fvs[j].Value)) < clock
+//@   modifies rh
+//@   loop 0:
+//@     invariant 0 <= i && i <= numField(sf.Type) && 0 <= fvsIdx && fvsIdx <= len(fvs) && valid(out) && vtype(out) == sf.Type && canSet(out)
+//@     invariant C10_the_values_are_only_read: forall w Val :: {visnilH(rh, w)} allocT(vroot(w)) < old(clock) ==> visnilH(rh, w) == visnilH(old(rh), w)
+//@     invariant C10_all_unset_so_far: allNil <==> (forall j int :: {fvs[j].Value} 0 <= j && j < fvsIdx ==> old(unsetValue(fvs[j].Value)))
+//@   ensures valid(out) && vtype(out) == sf.Type && canAddr(out)
+//@   ensures C10_no_values_means_unset: len(fvs) == 0 ==> allNil
+
+//@ func transform.(AnonymousFlattenMangler).Unmangle(a, sf, fvs) (v, err)
+//@   props C10
+//@   safety C16
+//@   requires sf.Type != nil
+//@   requires C10_one_value_for_a_field_that_was_not_hoisted: (!sf.Anonymous || (kind(sf.Type) != Ptr && kind(sf.Type) != Struct)) ==> len(fvs) == 1
+//@   requires C10_embedded_pointers_point_to_structs: sf.Anonymous && kind(sf.Type) == Ptr ==> elem(sf.Type) != nil && kind(elem(sf.Type)) == Struct
+//@   requires C10_values_fit_the_fields_of_the_same_name: sf.Anonymous && (kind(sf.Type) == Ptr || kind(sf.Type) == Struct) ==>
+//@        (forall i int, j int :: {fName(stripPtr(sf.Type), i), fvs[j].Field.Name} 0 <= i && i < numField(stripPtr(sf.Type)) && 0 <= j && j < len(fvs)
+//@        && fName(stripPtr(sf.Type), i) == fvs[j].Field.Name ==> valid(fvs[j].Value) && vtype(fvs[j].Value) != nil && assignable(vtype(fvs[j].Value), fType(stripPtr(sf.Type), i)) && isExported(fName(stripPtr(sf.Type), i)))
+//@   modifies rh
+//@   ensures err == nil
+//@   ensures C10_unhoisted_field_passes_through: (!sf.Anonymous || (kind(sf.Type) != Ptr && kind(sf.Type) != Struct)) ==> v == fvs[0].Value
+//@   ensures C10_embedded_pointer_with_no_values_stays_unset: sf.Anonymous && kind(sf.Type) == Ptr && len(fvs) == 0 ==> valid(v) && vtype(v) == sf.Type && visnil(v)
